@@ -69,6 +69,7 @@ type c05Case struct {
 	SrvErr  bool     `json:"server_errors"`
 	Ann     []c05Ann `json:"annotations,omitempty"` // explicit per-certificate annotations (method, server results); nil: derived from Method / SrvErr
 	NilRes  bool     `json:"nil_result_slice"`      // the validator returns (nil, nil): no results and no error
+	NilAt   []int    `json:"nil_entries,omitempty"` // positions of the result slice that hold a nil pointer
 	Stime   int64    `json:"signing_time_unix"`     // signing time in the signed attributes of the envelope (ground truth from notation-core-go)
 	Step    int      `json:"history_step"`          // > 0: n-th verification on one and the same verifier instance (the verdict must not depend on earlier calls)
 	hist    *c05Hist
@@ -118,9 +119,8 @@ func runC05(a *Args) error {
 	rng := NewRng(a.Seed)
 	prelude := "From NV Require Import Base C05_Model.\nOpen Scope string_scope.\n"
 	w := NewCaseWriter(a, "C05", prelude, "xcase", "xrun")
-	w.Rule = "every result vector over {OK,NonRevokable,Unknown,Revoked}^n (n=1..4 exhaustively; thorough adds n=5,6 exhaustively and random n<=12 with out-of-range result values) x action x validator interface x scheme x envelope format x presence of a timestamp countersignature in the unsigned attributes x position of the trust anchor in the chain (root / middle / leaf held by the listed store), plus validator errors (alone, and together with a complete result vector), answers outside the contract without error (fewer results than certificates incl. (nil,nil): aggregated as they are; more results: Verify panics, recovered and recorded), per-certificate method annotations and server results with/without errors (printed into the input term), the signing time of the signed attributes against the time value the validator receives, the library-default validator, and histories of 2-4 verifications on one verifier instance while the validator's answer changes; run through the real verifier.Verify. non-trivial = revocation not skipped and (some certificate not OK, or a validator error); distinct = distinct (vector, action, validators, scheme, format, error) tuples"
+	w.Rule = "every result vector over {OK,NonRevokable,Unknown,Revoked}^n (n=1..4 exhaustively; thorough adds n=5,6 exhaustively and random n<=12 with out-of-range result values) x action x validator interface x scheme x envelope format x presence of a timestamp countersignature in the unsigned attributes x position of the trust anchor in the chain (root / middle / leaf held by the listed store), plus validator errors (alone, and together with a complete result vector), answers outside the one-result-per-certificate contract without error (fewer results than certificates incl. (nil,nil) and an empty slice, more results, nil entries at every position: all must be inconclusive, none may pass or panic - a panic of Verify is recovered and recorded as an observation), per-certificate method annotations and server results with/without errors (printed into the input term), the signing time of the signed attributes against the time value the validator receives, the library-default validator, and histories of 2-4 verifications on one verifier instance while the validator's answer changes; run through the real verifier.Verify. non-trivial = revocation not skipped and (some certificate not OK, or a validator error); distinct = distinct (vector, action, validators, scheme, format, error) tuples"
 	w.Assumptions = []string{
-		"the property oracle is evaluated on answers that respect the validator contract (one result per certificate, or an error); answers outside it are checked for correspondence with the model only: a shorter vector is aggregated as it is (an all-passing one passes: theorem C05_pass_only_if_refuted), a longer one panics",
 		"the verifier whose two validator fields are both nil (x_val = 4 in the model) cannot be built through the public API and is not exercised",
 		"result classes are recognised from the error text of the revocation ValidationResult (\"is revoked\", \"revocation status is unknown\", \"unable to check revocation status\")",
 	}
@@ -249,8 +249,19 @@ func runC05(a *Args) error {
 		} else if results == nil && !c.VErr {
 			results = []*revresult.CertRevocationResult{} // an empty, non-nil slice
 		}
+		for _, pos := range c.NilAt {
+			if pos < len(results) {
+				results[pos] = nil
+			}
+		}
 		// the input term is printed from what the validator really hands back
+		complete := len(results) == c.N
 		for _, r := range results {
+			if r == nil {
+				resTerms = append(resTerms, "None")
+				complete = false
+				continue
+			}
 			k := 4
 			for j := 0; j < 4; j++ {
 				if c05Result(j) == r.Result {
@@ -261,7 +272,7 @@ func runC05(a *Args) error {
 			for _, sr := range r.ServerResults {
 				srv = append(srv, CPair(CN(int64(sr.RevocationMethod)), CBool(sr.Error != nil)))
 			}
-			resTerms = append(resTerms, CApp("mk_cr", c05ResNames[k], CN(int64(r.RevocationMethod)), CList(srv)))
+			resTerms = append(resTerms, CSome(CApp("mk_cr", c05ResNames[k], CN(int64(r.RevocationMethod)), CList(srv))))
 		}
 		var v notation.Verifier
 		var calls *[]RevCall
@@ -375,8 +386,8 @@ func runC05(a *Args) error {
 		in := CApp("mk_xinput", c.Action, CBool(c.SA), CN(int64(c.Val)), c05OptZ(c.Stime), CStrList(e.subjs), CBool(c.VErr), CList(resTerms))
 		obs := CApp("mk_xobs", CList(callTerms), resTerm, CBool(c.Rejected), CBool(c.Panic != ""))
 		term := CApp("mk_xcase", CN(my), in, obs)
-		nontriv := c.Action != "Skip" && (c.VErr || hasNonOK(c.Vec) || len(results) != c.N)
-		key := fmt.Sprintf("%v|%v|%v|%v|%v|%v|%v|%v|%v|%v|%v|%v", c.Vec, c.Action, c.Val, c.SA, c.Format, c.VErr, c.Level, c.Anchor, c.Step, c.Token, c.VErrRes, c.Blob) + fmt.Sprint(c.Ann, c.NilRes, c.Method, c.SrvErr)
+		nontriv := c.Action != "Skip" && (c.VErr || hasNonOK(c.Vec) || !complete)
+		key := fmt.Sprintf("%v|%v|%v|%v|%v|%v|%v|%v|%v|%v|%v|%v", c.Vec, c.Action, c.Val, c.SA, c.Format, c.VErr, c.Level, c.Anchor, c.Step, c.Token, c.VErrRes, c.Blob) + fmt.Sprint(c.Ann, c.NilRes, c.Method, c.SrvErr, c.NilAt)
 		w.Add(my, term, c, key, nontriv)
 		w.Count("chain_len", fmt.Sprint(c.N))
 		w.Count("trust_anchor", []string{"root", "middle", "leaf"}[c.Anchor])
@@ -387,6 +398,7 @@ func runC05(a *Args) error {
 		w.Count("obs_result", strings.SplitN(c.Result, ":", 2)[0])
 		w.Count("rejected", fmt.Sprint(c.Rejected))
 		w.Count("panicked", fmt.Sprint(c.Panic != ""))
+		w.Count("nil_entries", fmt.Sprint(len(c.NilAt) > 0))
 		w.Count("results_vs_chain", map[bool]string{true: "error", false: map[int]string{-1: "fewer", 0: "equal", 1: "more"}[sign(len(results)-c.N)]}[c.VErr])
 	}
 
@@ -553,10 +565,10 @@ func runC05(a *Args) error {
 		})
 	}
 	// 8. answers OUTSIDE the one-result-per-certificate contract, no error: fewer results than certificates
-	// (including none at all: (nil, nil) and an empty slice) are aggregated as they are - an all-passing short
-	// vector PASSES although nothing was reported about the remaining certificates (model: C05_pass_only_if_refuted);
-	// more results than certificates make revocationFinalResult index the chain out of range (Verify panics).
-	// Judged by correspondence with the model only (the property oracle is evaluated under the contract).
+	// (including none at all: (nil, nil) and an empty slice), more results than certificates, nil entries. Since
+	// fix d78db00 (checkRevocationResults) every such answer must fail the validation as inconclusive; before it an
+	// all-passing short vector PASSED (finding F1: C05_pass_only_if_v0_refuted) and a longer vector or a nil entry
+	// made Verify panic (F2: C05_v0_panic_iff). Ordinary cases: judged by the property oracle like all others.
 	for n := 1; n <= 4; n++ {
 		for _, m := range []int{0, 1, 2, 3, n + 1, n + 2} {
 			if m == n {
@@ -587,6 +599,35 @@ func runC05(a *Args) error {
 			}
 		}
 		runCase(&c05Case{N: n, Format: Pick(rng, formats), SA: rng.Bool(), Action: "Skip", Level: Pick(rng, levels), Val: 1 + rng.Intn(3), Vec: make([]int, n+1)})
+	}
+	// 8b. nil entries at every position of an otherwise complete answer (all passing, or with a revoked / unknown
+	// result elsewhere), and in short / overlong answers
+	for n := 1; n <= 4; n++ {
+		for pos := 0; pos < n; pos++ {
+			for pat := 0; pat < 3; pat++ {
+				v := make([]int, n)
+				for i := range v {
+					v[i] = rng.Intn(2)
+				}
+				if pat > 0 {
+					v[rng.Intn(n)] = 1 + pat // 2 unknown, 3 revoked (possibly at the nil position itself)
+				}
+				for _, act := range []string{"Enforce", "Log"} {
+					runCase(&c05Case{N: n, Format: Pick(rng, formats), SA: rng.Bool(), Action: act, Level: Pick(rng, levels), Val: 1 + rng.Intn(3), Vec: v, Method: rng.Intn(4), Anchor: rng.Intn(3), NilAt: []int{pos}})
+				}
+			}
+		}
+		for _, m := range []int{n - 1, n + 1} {
+			if m == 0 {
+				continue
+			}
+			runCase(&c05Case{N: n, Format: Pick(rng, formats), SA: rng.Bool(), Action: Pick(rng, []string{"Enforce", "Log"}), Level: Pick(rng, levels), Val: 1 + rng.Intn(3), Vec: make([]int, m), NilAt: []int{rng.Intn(m)}})
+		}
+		all := make([]int, n)
+		for i := range all {
+			all[i] = i
+		}
+		runCase(&c05Case{N: n, Format: Pick(rng, formats), SA: rng.Bool(), Action: "Enforce", Level: Pick(rng, levels), Val: 1 + rng.Intn(3), Vec: make([]int, n), NilAt: all})
 	}
 	// 9. annotations varied per certificate: every RevocationMethod value (unknown, OCSP, CRL, OCSP-fallback-CRL and an
 	// out-of-range one) at every position, 0-3 server results per certificate with and without errors, combined with
